@@ -36,7 +36,12 @@ from weakref import WeakKeyDictionary
 
 from ._core._eventloop import current_time
 from ._core._synchronization import Lock
-from .lowlevel import RunVar, checkpoint
+from .lowlevel import (
+    RunVar,
+    cancel_shielded_checkpoint,
+    checkpoint,
+    checkpoint_if_cancelled,
+)
 
 T = TypeVar("T")
 S = TypeVar("S")
@@ -359,7 +364,9 @@ async def reduce(  # type: ignore[misc]
 
     """
     element: Any
-    function_called = False
+
+    # Honor an already cancelled scope before consuming anything or calling the function
+    await checkpoint_if_cancelled()
     if isinstance(iterable, AsyncIterable):
         async_it = iterable.__aiter__()
         if initial is initial_missing:
@@ -374,7 +381,6 @@ async def reduce(  # type: ignore[misc]
 
         async for element in async_it:
             value = await function(value, element)
-            function_called = True
     elif isinstance(iterable, Iterable):
         it = iter(iterable)
         if initial is initial_missing:
@@ -389,13 +395,10 @@ async def reduce(  # type: ignore[misc]
 
         for element in it:
             value = await function(value, element)
-            function_called = True
     else:
         raise TypeError("reduce() argument 2 must be an iterable or async iterable")
 
-    # Make sure there is at least one checkpoint, even if an empty iterable and an
-    # initial value were given
-    if not function_called:
-        await checkpoint()
-
+    # Make sure the event loop gets to run at least once, even if neither the iterable nor
+    # the function yielded control to it (the result is kept, hence the shielding)
+    await cancel_shielded_checkpoint()
     return value
